@@ -741,6 +741,7 @@ class Interp:
         if applier is not None and not (self.call_stack == [] and (clo.module, clo.qualname) == top):
             if not getattr(self, "_entering_unit", False):
                 return applier(self, clo, args, kwargs)
+        self._entering_unit = False  # from here on, callees under contract are used through their contracts
         env = self.bind_args(clo, args, kwargs)
         if clo.is_async:
             return Coro(lambda: self.run_body(clo, env), name=clo.qualname, meta={"closure": clo, "env": env})
@@ -1489,6 +1490,21 @@ class Interp:
     def dict_get(self, d, k, default=KeyError):
         """dict lookup with possibly-symbolic key: fork over equal keys."""
         hit = None
+        k = self.unbox(k)
+        if isinstance(k, SV) and d and all(isinstance(v, int) and not isinstance(v, bool) for v in d.values()):
+            # table of integers indexed by a symbolic key: one fork (found / missing), the value as an if-then-else chain
+            eqs = [(self.eq_term(k, kk), vv) for kk, vv in d.items()]
+            eqs = [(e, vv) for e, vv in eqs if e is not False]
+            if eqs and all(not isinstance(e, bool) for e, _ in eqs):
+                found = z3.Or(*[e for e, _ in eqs]) if len(eqs) > 1 else eqs[0][0]
+                if self.ctx.branch(found, "dictkey-present"):
+                    val = z3.IntVal(eqs[-1][1])
+                    for e, vv in reversed(eqs[:-1]):
+                        val = z3.If(e, z3.IntVal(vv), val)
+                    return SV("int", val)
+                if default is KeyError:
+                    self.throw("KeyError", k)
+                return default
         for kk, vv in d.items():
             e = self.eq_term(k, kk)
             if e is True:
@@ -1559,7 +1575,28 @@ class Interp:
         return strmodel.concat(self, parts)
 
     def e_ListComp(self, e, env):
+        # [x for x in <symbolic sequence> if <cond>]: a subsequence of unknown length (contents not modelled)
+        if len(e.generators) == 1 and not e.generators[0].is_async and isinstance(e.elt, ast.Name) and isinstance(e.generators[0].target, ast.Name) and e.elt.id == e.generators[0].target.id:
+            itv = self.eval(e.generators[0].iter, env)
+            if isinstance(itv, SymSeq):
+                cenv = Env(env)
+                gen = fresh("int", "anyidx")
+                self.ctx.assume(z3.And(gen.t >= 0, gen.t < itv.length))
+                cenv.vars[e.elt.id] = strmodel.seq_elem(self, itv, gen.t)
+                for cnd in e.generators[0].ifs:
+                    self.truthy_term(self.eval(cnd, cenv))  # must be evaluable (and cannot raise) on an arbitrary element
+                n = fresh("int", "sublen")
+                self.ctx.assume(z3.And(n.t >= 0, n.t <= itv.length))
+                return SymSeq(itv.elem, z3.Const(f"sub!{next(strmodel._split_ctr)}", itv.arr.sort()), n.t, kind="list")
+            return [self.eval(e.elt, c2) for c2 in self._comp_from(itv, e.generators[0], env)]
         return list(self.comp(e, env))
+
+    def _comp_from(self, itv, g, env):
+        for x in self.iterate(itv):
+            cenv = Env(env)
+            self.assign(g.target, x, cenv)
+            if all(self.truthy(self.eval(c, cenv), "compif") for c in g.ifs):
+                yield cenv
 
     def e_SetComp(self, e, env):
         return set(self.comp(e, env))
